@@ -56,6 +56,9 @@ func GuardLits(b *ssa.BasicBlock) []string {
 		for _, l := range expandBoolPhi(g.Cond, g.Pol) {
 			out = append(out, l)
 		}
+		if call, neg := predCall(g.Cond); call != nil {
+			out = append(out, predImplied(call, g.Pol != neg)...)
+		}
 	}
 	return out
 }
@@ -332,6 +335,7 @@ type PathOpts struct {
 	SkipEdge func(from, to *ssa.BasicBlock) bool
 	Within   map[*ssa.BasicBlock]bool // if set, a path ends (End="exit") when it steps to a block outside this set
 	Assume   map[ssa.Value]string     // value → constant (constStr form) assumed equal for the whole path (switch-arm selection)
+	Splice   bool                     // insert the events of extracted helpers (liftOwner) at their calls
 }
 
 type pathEnum struct {
@@ -490,6 +494,70 @@ func (pe *pathEnum) walk(fn *ssa.Function, b *ssa.BasicBlock, blocks []*ssa.Basi
 	defer func() { visits[b]-- }()
 	blocks = append(blocks, b)
 	bev := blockEvents(b)
+	if alts := pe.spliceLifted(bev); alts != nil {
+		// the block calls an extracted helper: continue once per way through the helper
+		for _, alt := range alts {
+			pe.walkBlock(fn, b, blocks, evs, alt, visits, cs)
+		}
+		return
+	}
+	pe.walkBlock(fn, b, blocks, evs, bev, visits, cs)
+}
+
+// spliceLifted expands calls to lifted helpers (see liftOwner) in a block's event list: each
+// alternative is the event list with the helper's events along one of its paths inserted after
+// the call. nil when the block calls no such helper.
+func (pe *pathEnum) spliceLifted(bev []Event) [][]Event {
+	if theWorld == nil || noInline || !pe.opts.Splice {
+		return nil
+	}
+	any := false
+	alts := [][]Event{nil}
+	for _, e := range bev {
+		var inner [][]Event
+		if c, ok := e.Instr.(*ssa.Call); ok && e.Kind == EvCall && !c.Call.IsInvoke() {
+			if f := c.Call.StaticCallee(); f != nil && theWorld.liftOwner(f) != nil {
+				restore := aliasParams(f, c.Call.Args)
+				cps, complete := Paths(f, PathOpts{Cap: 64, Splice: true})
+				restore()
+				if complete {
+					for _, cp := range cps {
+						ev := cp.Events
+						if cp.Return() != nil {
+							ev = ev[:len(ev)-1]
+						}
+						inner = append(inner, ev)
+					}
+				}
+			}
+		}
+		if inner == nil {
+			for i := range alts {
+				alts[i] = append(alts[i], e)
+			}
+			continue
+		}
+		any = true
+		var next [][]Event
+		for _, a := range alts {
+			for _, in := range inner {
+				n := append(append(append([]Event{}, a...), e), in...)
+				next = append(next, n)
+			}
+		}
+		alts = next
+		if len(alts) > 256 {
+			return nil
+		}
+	}
+	if !any {
+		return nil
+	}
+	return alts
+}
+
+func (pe *pathEnum) walkBlock(fn *ssa.Function, b *ssa.BasicBlock, blocks []*ssa.BasicBlock, evs []Event, bev []Event,
+	visits map[*ssa.BasicBlock]int, cs *cstate) {
 	evs = append(evs[:len(evs):len(evs)], bev...)
 	for _, e := range bev {
 		switch e.Kind {
@@ -542,6 +610,12 @@ func (pe *pathEnum) walk(fn *ssa.Function, b *ssa.BasicBlock, blocks []*ssa.Basi
 		pe.emit(fn, blocks, evs, "panic")
 		return
 	case *ssa.If:
+		if call, neg := predCall(t.Cond); call != nil {
+			if pps, ok := predPaths(call, cs.eq); ok {
+				pe.walkPred(fn, b, t, call, neg, pps, blocks, evs, visits, cs)
+				return
+			}
+		}
 		canT, canF := true, true
 		if !pe.opts.NoPrune {
 			canT, canF = cs.feasible(t.Cond)
@@ -576,6 +650,115 @@ func (pe *pathEnum) walk(fn *ssa.Function, b *ssa.BasicBlock, blocks []*ssa.Basi
 		}
 		pe.walk(fn, s, blocks, evs, visits, cs, false)
 	}
+}
+
+// walkPred continues a path through an `if pred(args)` whose callee was expanded: each way
+// through the callee contributes its own literals and calls, then decides the branch.
+func (pe *pathEnum) walkPred(fn *ssa.Function, b *ssa.BasicBlock, t *ssa.If, call *ssa.Call, neg bool, pps []predPath,
+	blocks []*ssa.BasicBlock, evs []Event, visits map[*ssa.BasicBlock]int, cs *cstate) {
+	f := call.Call.StaticCallee()
+	for _, pp := range pps {
+		ncs := cs.clone()
+		ok := true
+		for _, e := range pp.events {
+			switch e.Kind {
+			case EvCond:
+				if !pe.opts.NoPrune && ncs.lits[NegLit(e.Text)] {
+					ok = false
+				}
+				ncs.lits[e.Text] = true
+				// constraints on parameters carry over to the caller's argument values
+				if ifi, isIf := e.Instr.(*ssa.If); isIf {
+					if x, k, isEq, has := eqConstraint(ifi.Cond, e.Pol); has {
+						if par, isPar := x.(*ssa.Parameter); isPar {
+							for i, q := range f.Params {
+								if q == par && i < len(call.Call.Args) {
+									a := call.Call.Args[i]
+									if !pe.opts.NoPrune {
+										if v, known := ncs.eq[a]; known && (v == k) != isEq {
+											ok = false
+										}
+										if isEq && ncs.neq[a][k] {
+											ok = false
+										}
+									}
+									if isEq {
+										ncs.eq[a] = k
+									} else {
+										if ncs.neq[a] == nil {
+											ncs.neq[a] = map[string]bool{}
+										}
+										ncs.neq[a][k] = true
+									}
+								}
+							}
+						}
+					}
+				}
+			case EvCall:
+				if n := calleeName(e.Instr); n != "len" && n != "cap" {
+					ncs.lits = map[string]bool{}
+				}
+			}
+		}
+		if !ok {
+			continue
+		}
+		ne := append(evs[:len(evs):len(evs)], pp.events...)
+		for i, s := range b.Succs {
+			pol := i == 0
+			want := pol != neg // value the predicate must return for this successor
+			if pe.opts.SkipEdge != nil && pe.opts.SkipEdge(b, s) {
+				continue
+			}
+			if pp.isK {
+				if pp.k != want {
+					continue
+				}
+				pe.walk(fn, s, blocks, ne, visits, ncs, false)
+				continue
+			}
+			lit := pp.litF
+			if want {
+				lit = pp.litT
+			}
+			if !pe.opts.NoPrune && ncs.lits[NegLit(lit)] {
+				continue
+			}
+			n2 := ncs.clone()
+			n2.lits[lit] = true
+			ne2 := append(ne[:len(ne):len(ne)], Event{Kind: EvCond, Text: lit, Instr: t, Pol: pol})
+			pe.walk(fn, s, blocks, ne2, visits, n2, false)
+		}
+	}
+}
+
+// eqConstraint decomposes `x == k` / `x != k` under polarity pol.
+func eqConstraint(cond ssa.Value, pol bool) (x ssa.Value, k string, isEq, ok bool) {
+	for {
+		u, isU := cond.(*ssa.UnOp)
+		if !isU || u.Op != token.NOT {
+			break
+		}
+		cond = u.X
+		pol = !pol
+	}
+	b, isB := cond.(*ssa.BinOp)
+	if !isB || (b.Op != token.EQL && b.Op != token.NEQ) {
+		return nil, "", false, false
+	}
+	x, y := b.X, b.Y
+	if _, xc := x.(*ssa.Const); xc {
+		x, y = y, x
+	}
+	yc, isC := y.(*ssa.Const)
+	if !isC {
+		return nil, "", false, false
+	}
+	if _, xc := x.(*ssa.Const); xc {
+		return nil, "", false, false
+	}
+	return x, constStr(yc), (b.Op == token.EQL) == pol, true
 }
 
 // ---------------------------------------------------------------------------------------------
